@@ -160,7 +160,56 @@ func descArg(name string) physical.TableValuedFunctionArgument {
 	}
 }
 
-var env = physical.Environment{}
+// Arguments of a table valued function may be constants or variables of the enclosing variable context
+// (a correlated subquery: range(start => 0, end => r.i)).  varEnv declares the outer record v0..v3; the
+// values are supplied per run through RunInContext.
+var env = physical.Environment{VariableContext: &physical.VariableContext{Fields: []physical.SchemaField{
+	{Name: "v0", Type: octosql.Any}, {Name: "v1", Type: octosql.Any}, {Name: "v2", Type: octosql.Any}, {Name: "v3", Type: octosql.Any},
+}}}
+
+func varArg(i int, t octosql.Type) physical.TableValuedFunctionArgument {
+	return physical.TableValuedFunctionArgument{
+		TableValuedFunctionArgumentType: physical.TableValuedFunctionArgumentTypeExpression,
+		Expression: &physical.TableValuedFunctionArgumentExpression{Expression: physical.Expression{
+			Type: t, ExpressionType: physical.ExpressionTypeVariable, Variable: &physical.Variable{Name: fmt.Sprintf("v%d", i), IsLevel0: true},
+		}},
+	}
+}
+
+// MdwVar, TumbleVar, RangeVar: the same nodes with their scalar arguments read from the outer record
+// (max_diff = v0, resolution = v1; window_length = v0, offset = v1; start = v0, end = v1).
+func MdwVar(src execution.Node, idx, nfields int) (execution.Node, error) {
+	return tvf.MaxDiffWatermark.Descriptors[0].Materialize(context.Background(), env, map[string]physical.TableValuedFunctionArgument{
+		"source":     tableArg(src, nfields, idx),
+		"max_diff":   varArg(0, octosql.Duration),
+		"time_field": descArg(fieldName(idx)),
+		"resolution": varArg(1, octosql.Duration),
+	})
+}
+
+func TumbleVar(src execution.Node, idx, nfields int) (execution.Node, error) {
+	return tvf.Tumble.Descriptors[0].Materialize(context.Background(), env, map[string]physical.TableValuedFunctionArgument{
+		"source":        tableArg(src, nfields, idx),
+		"window_length": varArg(0, octosql.Duration),
+		"time_field":    descArg(fieldName(idx)),
+		"offset":        varArg(1, octosql.Duration),
+	})
+}
+
+func RangeVar() (execution.Node, error) {
+	return tvf.Range.Descriptors[0].Materialize(context.Background(), env, map[string]physical.TableValuedFunctionArgument{
+		"start": varArg(0, octosql.Int),
+		"end":   varArg(1, octosql.Int),
+	})
+}
+
+// ResettableSource replays whatever script it currently holds; a node built over it can be run again
+// on another script.
+type ResettableSource struct{ Events []lib.Event }
+
+func (s *ResettableSource) Run(ctx execution.ExecutionContext, produce execution.ProduceFn, metaSend execution.MetaSendFn) error {
+	return (&lib.ScriptSource{Events: s.Events}).Run(ctx, produce, metaSend)
+}
 
 // Mdw builds max_diff_watermark(source, max_diff, time_field, resolution) the way the planner does.
 func Mdw(src execution.Node, md, res time.Duration, idx, nfields int) (execution.Node, error) {
@@ -251,12 +300,20 @@ func RunRecording(n execution.Node, onWM func(index int)) (out []lib.Event, err 
 
 // RunLimited stops a runaway node: produce fails once more than limit events were recorded.
 func RunLimited(n execution.Node, onWM func(index int), limit int) (out []lib.Event, err error, panicked interface{}) {
+	return RunInContext(n, nil, onWM, limit)
+}
+
+// RunInContext runs the node with outer holding the values of the outer record v0.. (nil: no outer record).
+func RunInContext(n execution.Node, outer []octosql.Value, onWM func(index int), limit int) (out []lib.Event, err error, panicked interface{}) {
 	defer func() {
 		if p := recover(); p != nil {
 			panicked = p
 		}
 	}()
 	ctx := execution.ExecutionContext{Context: context.Background(), VariableContext: nil}
+	if outer != nil {
+		ctx.VariableContext = &execution.VariableContext{Values: outer}
+	}
 	err = n.Run(ctx,
 		func(ctx execution.ProduceContext, record execution.Record) error {
 			vals := make([]octosql.Value, len(record.Values))
